@@ -744,6 +744,15 @@ func readConfigFile() (fileData []byte, err error) {
 
 // Saves configuration to the YAML file and also saves the user filter contents to a file
 func (c *configuration) write(tlsMgr *tlsManager) (err error) {
+	// Get the TLS settings before locking the configuration.  The TLS manager
+	// takes its own lock first and then the one of the configuration when it
+	// validates and applies new settings, so taking them here in the opposite
+	// order would let the two wait for each other forever.
+	var tlsConf *tlsConfigSettings
+	if tlsMgr != nil {
+		tlsConf = tlsMgr.config()
+	}
+
 	c.Lock()
 	defer c.Unlock()
 
@@ -751,8 +760,7 @@ func (c *configuration) write(tlsMgr *tlsManager) (err error) {
 		config.Users = globalContext.auth.usersList()
 	}
 
-	if tlsMgr != nil {
-		tlsConf := tlsMgr.config()
+	if tlsConf != nil {
 		config.TLS = *tlsConf
 	}
 
